@@ -124,9 +124,32 @@ structure Inv (args : List Stage) (body : Stage) (ctxs : Nat → Ctx) (st : St) 
   fin : ∀ w o r, st.pcs w = .fin o r → r = (withArgs args body).run (ctxs w)
   done : ∀ w r, st.pcs w = .done r → r = (withArgs args body).run (ctxs w)
 
+/-- How many actions a body still needs against an object whose `sub` is `s` (the number of its look-ups plus the
+    final answer) – the length of the SEQUENTIAL run. -/
+def stepsLeft (args : List Stage) (s : Ctx) : Comp Bytes → Nat
+  | .ret _ => 1
+  | .panic _ => 1
+  | .getKey n k => stepsLeft args s (k (s.getKey n)) + 1
+  | .getMatch i k =>
+    if i < 0 then stepsLeft args s (k (s.getMatch i)) + 1
+    else if i ≥ args.length then stepsLeft args s (k []) + 1
+    else
+      match (args.getD i.toNat (.ret [])).run s with
+      | .ok v => stepsLeft args s (k v) + 1
+      | .error _ => 1
+
+/-- Actions a worker called with context `s` still has to perform. -/
+def Pc.left (args : List Stage) (body : Stage) (s : Ctx) : Pc → Nat
+  | .idle => stepsLeft args s body + 3
+  | .got _ => stepsLeft args s body + 2
+  | .run _ c => stepsLeft args s c + 1
+  | .fin _ _ => 1
+  | .done _ => 0
+
 /-! ## Part 2 -/
 
-/-- Where an evaluation of the `cache` closure is (real evaluation, non-empty date string `s`, not the static value). -/
+/-- Where an evaluation of the `cache` closure is (an evaluation on input; the date expression is not constant and its
+    static value is empty, as for `{time {0}}`, so a non-empty date is never "the static value"). -/
 inductive TPc (L : Type) where
   | start
   /-- `format.Load()` answered `l` (`none` = empty) -/
@@ -143,11 +166,11 @@ structure TSt (L : Type) where
 def TSt.setPc {L : Type} (st : TSt L) (w : Nat) (pc : TPc L) : TSt L :=
   { st with pcs := fun v => if v = w then pc else st.pcs v }
 
-/-- One atomic action of worker `w` evaluating the date string `dates w`: `Load`; then with a remembered layout
-    `time.Parse`, without one `ParseFormat` (failure: `<PARSE-ERROR>`); `Store`+parse. -/
+/-- One atomic action of worker `w` evaluating the date string `dates w`: the empty check and `Load`; then with a
+    remembered layout `time.Parse`, without one `ParseFormat` (failure: `<PARSE-ERROR>`); `Store` and parse. -/
 def tstep {L : Type} (lib : TimeLib L) (dates : Nat → Bytes) (w : Nat) (st : TSt L) : TSt L :=
   match st.pcs w with
-  | .start => st.setPc w (.loaded st.cell)
+  | .start => if dates w = [] then st.setPc w (.done ErrorParsing) else st.setPc w (.loaded st.cell)
   | .loaded (some l) => st.setPc w (.done (lib.parseOr l (dates w)))
   | .loaded none =>
     match lib.detect (dates w) with
@@ -169,5 +192,18 @@ def TPc.answer {L : Type} : TPc L → Option Bytes
 def seqAnswers {L : Type} (lib : TimeLib L) (da db : Bytes) : Bytes × Bytes :=
   let ra := timeStep .cur lib [] false da TimeSt.fresh
   (ra.1, (timeStep .cur lib [] false db ra.2).1)
+
+/-- What an answer can be, whatever the schedule: `<PARSE-ERROR>` for an empty or undetectable date, else the date
+    parsed by the layout of SOME worker's (non-empty) date – its own, or one that another worker stored. -/
+def Good {L : Type} (lib : TimeLib L) (dates : Nat → Bytes) (w : Nat) (v : Bytes) : Prop :=
+  (dates w = [] ∧ v = ErrorParsing) ∨ (lib.detect (dates w) = none ∧ v = ErrorParsing) ∨
+    (dates w ≠ [] ∧ ∃ w' l, dates w' ≠ [] ∧ lib.detect (dates w') = some l ∧ v = lib.parseOr l (dates w))
+
+structure TInv {L : Type} (lib : TimeLib L) (dates : Nat → Bytes) (st : TSt L) : Prop where
+  cell : ∀ l, st.cell = some l → ∃ w', dates w' ≠ [] ∧ lib.detect (dates w') = some l
+  loaded : ∀ w l, st.pcs w = .loaded (some l) → ∃ w', dates w' ≠ [] ∧ lib.detect (dates w') = some l
+  nonempty : ∀ w x, st.pcs w = .loaded x → dates w ≠ []
+  detected : ∀ w l, st.pcs w = .detected l → dates w ≠ [] ∧ lib.detect (dates w) = some l
+  done : ∀ w v, st.pcs w = .done v → Good lib dates w v
 
 end Rare.C10.Conc
